@@ -1054,7 +1054,7 @@ fn gen_file_ops(rng: &mut Rng, lines: &mut Vec<String>, handles: &[u64], n_ops: 
     let mut approx = 16u64;
     for _ in 0..n_ops {
         let h = *rng.pick(handles);
-        match rng.below(20) {
+        match rng.below(80) / 4 {
             0..=4 => lines.push(format!("readat {h} {} {}", gen_pos(rng, approx), gen_rbuf(rng))),
             5..=8 => lines.push(format!("readv {h} {} {}", gen_pos(rng, approx), gen_list(rng, gen_rbuf))),
             9..=12 => lines.push(format!("writeat {h} {} {}", gen_pos(rng, approx), gen_wbuf(rng))),
@@ -1063,7 +1063,7 @@ fn gen_file_ops(rng: &mut Rng, lines: &mut Vec<String>, handles: &[u64], n_ops: 
                 approx = rng.below(48);
                 lines.push(format!("setlen {h} {approx}"));
             }
-            17 => lines.push(format!("sync {h} {}", if rng.chance(1, 2) { "data" } else { "all" })),
+            17 if rng.chance(1, 6) => lines.push(format!("sync {h} {}", if rng.chance(1, 2) { "data" } else { "all" })),
             _ => lines.push(format!("meta {h}")),
         }
     }
@@ -1312,9 +1312,16 @@ fn main() {
 
     let exec = |case: &Case| -> Exec {
         let mut ex = Exec::new();
+        let t0 = std::time::Instant::now();
         let a = run_compio(&rt_iour, &d_iour, &case.lines);
+        let t1 = std::time::Instant::now();
         let b = run_compio(&rt_poll, &d_poll, &case.lines);
+        let t2 = std::time::Instant::now();
         let o = run_os(&d_os, &case.lines);
+        let t3 = std::time::Instant::now();
+        if std::env::var("C08_TIMING").is_ok() {
+            eprintln!("T {} {:?} {:?} {:?}", case.name, t1 - t0, t2 - t1, t3 - t2);
+        }
         let mut tainted = false;
         let mut n_ok = 0;
         for (i, line) in case.lines.iter().enumerate() {
